@@ -248,14 +248,16 @@ theorem progress_all (ber : Bytes) : ∀ f : Nat,
                   refine ⟨by omega, fun _ => by omega, fun h => by simp at h⟩
           | false =>
             simp only [Bool.false_eq_true, if_false] at h
-            cases hi : readItems f ber e1 ce false d with
-            | error e => rw [hi] at h; simp at h
-            | ok r =>
-              obtain ⟨os1, e2⟩ := r
-              rw [hi] at h
-              injection h with h; injection h with _ h; subst h
-              have hI := ihI _ _ _ _ _ _ hi
-              refine ⟨by omega, fun h => by simp at h, fun _ _ => hI.2.2 rfl (by omega)⟩
+            split at h
+            · simp at h
+            · cases hi : readItems f ber e1 ce false d with
+              | error e => rw [hi] at h; simp at h
+              | ok r =>
+                obtain ⟨os1, e2⟩ := r
+                rw [hi] at h
+                injection h with h; injection h with _ h; subst h
+                have hI := ihI _ _ _ _ _ _ hi
+                refine ⟨by omega, fun h => by simp at h, fun _ _ => hI.2.2 rfl (by omega)⟩
 
 /-- `finish` only passes errors through -/
 theorem finish_error {tag : Bytes} {ce : Nat} {ind : Bool} {x : Except Err (List Obj × Nat)} {e : Err}
@@ -316,6 +318,7 @@ def itemsK (O : Nat → Except Err (Obj × Nat)) (I : Nat → Except Err (List O
           match I off' with
           | .error e => .error e
           | .ok (os, off'') => .ok (o :: os, off'')
+      else if off' > contentEnd then .error .beyondParent
       else
         match I off' with
         | .error e => .error e
@@ -368,12 +371,16 @@ theorem itemsK_mono {O O2 : Nat → Except Err (Obj × Nat)} {I I2 : Nat → Exc
             | ok r => rw [hI e1 (by rw [hi]; simp), hi]
       | false =>
         simp only [Bool.false_eq_true, if_false] at h ⊢
-        cases hi : I e1 with
-        | error e =>
-              rw [hi] at h
-              have he : e ≠ Err.fuel := fun hh => h (by rw [hh])
-              rw [hI e1 (by rw [hi]; intro x; injection x with x; exact he x), hi]
-        | ok r => rw [hI e1 (by rw [hi]; simp), hi]
+        split
+        · rfl
+        · rename_i h1
+          rw [if_neg h1] at h
+          cases hi : I e1 with
+          | error e =>
+                rw [hi] at h
+                have he : e ≠ Err.fuel := fun hh => h (by rw [hh])
+                rw [hI e1 (by rw [hi]; intro x; injection x with x; exact he x), hi]
+          | ok r => rw [hI e1 (by rw [hi]; simp), hi]
 
 /-- one more unit of fuel does not change a result other than `fuel` -/
 theorem mono_all (ber : Bytes) : ∀ f : Nat,
@@ -585,13 +592,15 @@ theorem depth_all (ber : Bytes) : ∀ f : Nat,
                   exact hcons _ _ hi
           | false =>
             simp only [Bool.false_eq_true, if_false] at h
-            cases hi : readItems f ber e1 ce false d with
-            | error e => rw [hi] at h; simp at h
-            | ok r =>
-              obtain ⟨os1, e2⟩ := r
-              rw [hi] at h
-              injection h with h; injection h with h _; subst h
-              exact hcons _ _ hi
+            split at h
+            · simp at h
+            · cases hi : readItems f ber e1 ce false d with
+              | error e => rw [hi] at h; simp at h
+              | ok r =>
+                obtain ⟨os1, e2⟩ := r
+                rw [hi] at h
+                injection h with h; injection h with h _; subst h
+                exact hcons _ _ hi
 
 /-- The nesting bound of the repaired code: an object that `readObjectDepth` accepts at depth `d` has at most
     `maxBERDepth - d` levels of constructed encodings below (and including) it.  A constructed object is
